@@ -142,7 +142,8 @@ fn instruction_views(text: &str) -> Result<(), String> {
     if rebuilt != program {
         return Err("Program::from_instructions(p.to_instructions()) != p".to_string());
     }
-    Ok(())
+    // "each keyed definition keeps only its last value", in the order it was first added
+    definition_order(text, &program)
 }
 
 /// C10: the used-qubit set equals the qubits mentioned by the instruction listing, after each operation
@@ -308,6 +309,18 @@ fn definition_order(text: &str, first: &Program) -> Result<(), String> {
     let listed: Vec<_> = first.to_instructions().into_iter().filter_map(|i| match i { Instruction::Pragma(p) if p.name == "EXTERN" => Some(p), _ => None }).collect();
     if listed != externs.iter().map(|(_, p)| p.clone()).collect::<Vec<_>>() {
         return Err("PRAGMA EXTERNs are not listed in the order in which each was first added (redefinitions in place)".to_string());
+    }
+    // frames are a map: each identifier keeps the attributes of its last definition, nothing of an earlier one
+    for i in added.iter() {
+        if let Instruction::FrameDefinition(f) = i {
+            let last = added.iter().rev().find_map(|j| match j {
+                Instruction::FrameDefinition(g) if g.identifier == f.identifier => Some(&g.attributes),
+                _ => None,
+            });
+            if first.frames.get(&f.identifier) != last {
+                return Err(format!("frame {} does not have exactly the attributes of its last definition", quil_rs::quil::Quil::to_quil_or_debug(&f.identifier)));
+            }
+        }
     }
     let waves = first_added_order(added.iter().filter_map(|i| if let Instruction::WaveformDefinition(w) = i { Some((w.name.clone(), w.definition.clone())) } else { None }).collect());
     if first.waveforms.iter().map(|(k, v)| (k.clone(), v.clone())).collect::<Vec<_>>() != waves {
